@@ -480,7 +480,12 @@ func (it *Interp) convert(fr *frame, from, to *TInfo, v Value) Value {
 			if x.cell == nil {
 				return mkConst(to.w, 0)
 			}
-			it.abort("unmodelled", "pointer to integer conversion at "+it.stackString(fr))
+			// an opaque, stable fake address (only printed by %p, never dereferenced)
+			id := 1
+			if x.obj != nil {
+				id = x.obj.id & 0xfffff
+			}
+			return mkConst(to.w, uint64(0xc000000000+id*0x1000)+uint64(x.off))
 		}
 	case KFloat:
 		var f float64
